@@ -5,6 +5,8 @@ import ApolloModel.Proofs.ParserSel9
 import ApolloModel.Proofs.ParserComplete28
 import ApolloModel.Proofs.ParserExactS14
 import ApolloModel.Proofs.ParserExactT11
+import ApolloModel.Proofs.ParserExactT13
+import ApolloModel.Proofs.ParserExactS16
 import ApolloModel.Proofs.ParserDef19
 import ApolloModel.Proofs.ParserTermination8
 import ApolloModel.Proofs.ParserDoc5
@@ -1001,6 +1003,27 @@ theorem enum_extension_accept_sound_exact (n : Nat) :
 theorem input_object_extension_accept_sound_exact (n : Nat) :
     Parse.Exact.DefSound (EStart "input".toList) (inputObjectTypeExtension n) := Parse.Exact.inputExt_sound n
 
+/-- **object_definition_accept_sound_exact**: the field `object` of `Parse.Exact.DefExact` — entered as the dispatcher
+    enters it on a lexer queue, an error-free run of `object_type_definition` consumed `(.object desc nm impl ds fs).toks`
+    with `Parse.Exact.looseFit` (directives and every field definition within the budget of the start state); when the
+    fields are absent the next significant token is not `{` -/
+theorem object_definition_accept_sound_exact (n : Nat) :
+    Parse.Exact.DefSound (DStart "type".toList) (objectTypeDefinition n) := Parse.Exact.objectDef_sound n
+
+/-- **interface_definition_accept_sound_exact**: the field `interface` of `Parse.Exact.DefExact` -/
+theorem interface_definition_accept_sound_exact (n : Nat) :
+    Parse.Exact.DefSound (DStart "interface".toList) (interfaceTypeDefinition n) := Parse.Exact.interfaceDef_sound n
+
+/-- **union_definition_accept_sound_exact**: the field `union` of `Parse.Exact.DefExact` (only the directives depend on
+    the budget) -/
+theorem union_definition_accept_sound_exact (n : Nat) :
+    Parse.Exact.DefSound (DStart "union".toList) (unionTypeDefinition n) := Parse.Exact.unionDef_sound n
+
+/-- **directive_definition_accept_sound_exact**: the field `directive` of `Parse.Exact.DefExact` (every argument
+    definition within the budget; the locations are directive locations) -/
+theorem directive_definition_accept_sound_exact (n : Nat) :
+    Parse.Exact.DefSound (DStart "directive".toList) (directiveDefinition n) := Parse.Exact.directiveDef_sound n
+
 /-- **schema_definition_accept_sound_exact, up to the recorded finding.**  `Parse.Exact.looseFit` asks every root
     operation type to have its named type; the parser accepts `schema { query: }` (the recorded C05 finding), so an
     error-free run establishes only `Parse.Exact.looseFitX` = `looseFit` without that clause
@@ -1021,6 +1044,44 @@ theorem schema_extension_accept_sound_exact (n : Nat) (s s' : PState) (w : TW s)
       Parse.Exact.looseFitX (Parse.Exact.bud s) l ∧ Settled s' ∧
       (Parse.Exact.openBody l → ∀ t, s'.current = some t → t.kind ≠ .lCurly) :=
   Parse.Exact.schemaExt_soundX n s s' w he hq hs hr hnd
+
+
+/-! ### growth 12: the whole grammar at the exact budget, UNCONDITIONAL — object / interface / union type extensions and the
+    final assembly (all fifteen type-system definition / extension parsers discharged) -/
+
+theorem object_extension_accept_sound_exact (n : Nat) :
+    Parse.Exact.DefSound (Parse.EStart "type".toList) (objectTypeExtension n) := Parse.Exact.objectExt_sound n
+
+theorem interface_extension_accept_sound_exact (n : Nat) :
+    Parse.Exact.DefSound (Parse.EStart "interface".toList) (interfaceTypeExtension n) := Parse.Exact.interfaceExt_sound n
+
+theorem union_extension_accept_sound_exact (n : Nat) :
+    Parse.Exact.DefSound (Parse.EStart "union".toList) (unionTypeExtension n) := Parse.Exact.unionExt_sound n
+
+/-- **document_accept_sound_exact, unconditional.**  Zero errors of `Parser::parse` (model; no token limit, any recursion limit
+    `rl`) IMPLIES: the source lexes cleanly and its significant tokens are `docToks its ++ [EOF]` for a non-empty list of
+    items — executable definitions in long or shorthand form, type-system definitions / extensions as `LooseDef` — every item
+    within the EXACT budget (`Parse.Exact.itemFitX rl` = `itemFit` without "every root operation type of a schema definition /
+    extension has its named type", the recorded finding) and the list satisfying the exact follow condition
+    `Parse.Exact.DocFollowX` (only a definition without its braces body restricts the next token: not `{`). -/
+theorem document_accept_sound_exact_unconditional (rl : Nat) (src : Parse.Str)
+    (herr : (parse .document none rl src).errors = []) :
+    LexClean src ∧ ∃ (ts : List Tok) (its : List DocItem) (e : Tok), sig (srcToks src) = ts ++ [e] ∧ e.kind = .eof ∧
+      ts.map astOfV = (docToks its).map some ∧ its ≠ [] ∧ (∀ i ∈ its, Parse.Exact.itemFitX rl i) ∧ Parse.Exact.DocFollowX its :=
+  Parse.Exact.document_accept_sound_exact_unconditional rl src herr
+
+/-- **the final sandwich for the whole grammar at the exact budget**: `{itemFit rl, DocFollowOk}` ⊆ accepted ⊆
+    `{itemFitX rl, DocFollowX}`.  The two gaps are exactly (a) the recorded finding — a root operation type without its named type
+    is accepted — and (b) a shorthand query directly after a type-system definition whose braces body is written
+    (`document_follow_guard_not_exact`), for which the completeness calculus has no instance-dependent follow set. -/
+theorem document_accept_sandwich_exact (rl : Nat) (src : Parse.Str) :
+    ((parse .document none rl src).errors = [] →
+      LexClean src ∧ ∃ (ts : List Tok) (its : List DocItem) (e : Tok), sig (srcToks src) = ts ++ [e] ∧ e.kind = .eof ∧
+        ts.map astOfV = (docToks its).map some ∧ its ≠ [] ∧ (∀ i ∈ its, Parse.Exact.itemFitX rl i) ∧ Parse.Exact.DocFollowX its) ∧
+    ((LexClean src ∧ ∃ (ts : List Tok) (its : List DocItem) (e : Tok), sig (srcToks src) = ts ++ [e] ∧ e.kind = .eof ∧
+        ts.map astOfV = (docToks its).map some ∧ its ≠ [] ∧ (∀ i ∈ its, Parse.Exact.itemFit rl i) ∧ Parse.Exact.DocFollowOk its) →
+      (parse .document none rl src).errors = []) :=
+  Parse.Exact.document_sandwich_final rl src
 
 end Executable
 
